@@ -81,6 +81,12 @@ def limits(ctx):
     if p.get("warm"):
         warm_views(w.market)
         w.market.borrows, w.market.supplies  # the derived dict views too
+    if p.get("new_bar"):
+        # a new bar (other indices and prices) after the views were read: the limits must be those of the bar that is current
+        li = {n: ctx.dec(f"li2_{n}", 1, 5) for n in w.names}
+        bi = {n: ctx.dec(f"bi2_{n}", 1, 5) for n in w.names}
+        pr = {n: ctx.dec(f"p2_{n}", D("0.001"), 10**5) for n in w.names}
+        w.set_row(li, bi, pr)
     ok, label = _limit_step(ctx, w, p["op"], p["tok"], p["tok2"], "")
     ctx.outcome("accepted" if ok else "rejected:" + label)
     _views_match(ctx, w, w.raw(), f"after {p['op']} [{'accepted' if ok else 'rejected'}]")
@@ -251,6 +257,12 @@ def scenarios(tier):
             for first, tok1 in [("borrow", debts[0])] + ([("withdraw", colls[0])] if colls else []):
                 for then, tok_then in [("borrow", debts[0])] + ([("withdraw", colls[0])] if colls else []):
                     out.append(Scenario(f"limits2/{sn}/{first}:{tok1}+{then}:{tok_then}", limits, params=dict(shape=shape, op=first, tok=tok1, tok2=None, then=then, tok_then=tok_then, warm=True), shadows=SHADOWS, entry=(f"AaveV3Market.{first}", f"AaveV3Market.{then}", "health_factor", "max_ltv"), max_paths=1200))
+        # views read, then a NEW BAR with other prices and indices, then a limit-bearing operation
+        if sn in ("A", "B", "C") or tier != "quick":
+            debts = [n for n in shape if shape[n][1]] or list(shape)[:1]
+            colls = [n for n in shape if shape[n][0] == "C"]
+            for op, tok in [("borrow", n) for n in (debts[:1] + [x for x in shape if x not in debts][:1])] + [("withdraw", c) for c in colls[:1]] + [("change_collateral", c) for c in colls[:1]]:
+                out.append(Scenario(f"limits_after_new_bar/{sn}/{op}/{tok}", limits, params=dict(shape=shape, op=op, tok=tok, tok2=None, warm=True, new_bar=True), shadows=SHADOWS, entry=(f"AaveV3Market.{op}", "set_market_status", "health_factor", "max_ltv"), max_paths=1200))
         for tok in shape:
             has_coll = any(s == "C" for (s, _) in shape.values())
             if has_coll:
